@@ -28,7 +28,11 @@ RULE = ("strings over {a,b,c,' '} (length <= 7) plus Unicode samples (astral, co
         "numbered, named, nested and optional groups x subject strings x selectors reading $0.., $name, eager "
         "([..] lists) and LAZY (select/where over a constant list reading $k.value/start/end, k >= 2 or a name) x "
         "consumers of the searchAll result (plain, toList, reverse, toList().take(1), toList().skip(1)); "
-        "non-trivial = not the empty string and (for index functions) a negative or past-the-end argument or "
+        "the string calls again on engines with yaql.memoryQuota (600, 1000, 5000, 20000) / yaql.limitIterators (50, 1000): "
+        "repetition counts and text lengths sweeping getsizeof(result) = quota from both sides, calls that fit must give "
+        "the model's value; kinds of the collection results (raw type under convertOutputData=false, finalised type under "
+        "the 4 output-option combinations and the legacy engine) and their use as values (=, indexOf, in, distinct, toSet, "
+        "dict key, groupBy); non-trivial = not the empty string and (for index functions) a negative or past-the-end argument or "
         "a hit, (for regex) at least one match with at least one group; distinct = distinct call")
 TRUSTED = ["Model/Strings.v transcribes CPython's str.find/rfind/slice/split/rsplit/strip/replace/join semantics and "
            "the yaql wrappers of strings.py; tied by this correspondence",
@@ -42,7 +46,9 @@ TRUSTED = ["Model/Strings.v transcribes CPython's str.find/rfind/slice/split/rsp
            "str.isspace code points are pinned in Model/Strings.v (is_space) and swept against the running "
            "interpreter over all code points on every run",
            "the brute-force Python twin in harness/props/c19.py (used to classify a disagreement and as oracle)"]
-ASSUMPTIONS = ["regex group names are identifiers (do not start with a digit), so `$<n>` and `$<name>` never collide",
+ASSUMPTIONS = ["under yaql.memoryQuota only 'a call whose data document, arguments, result and result elements all fit is "
+               "answered with the model value' is claimed (the refusal rule of repetition is C08's)",
+               "regex group names are identifiers (do not start with a digit), so `$<n>` and `$<name>` never collide",
                "no memory quota is configured on the engine (string repetition)",
                "replacement dictionaries have keys that are distinct under Python equality"]
 EXPLANATION = ("proofs of the documented meaning on the Gallina model of the string/regex wrappers and of a backtracking "
